@@ -378,6 +378,24 @@ AtomicMove<SlotType, BUFFER_SIZE> {
     }
 }
 
+/// verification hooks: lets the external harness name the shared cells and snapshot the counters
+#[cfg(feature = "verif")]
+impl<SlotType:          Debug + Default,
+     const BUFFER_SIZE: usize>
+AtomicMove<SlotType, BUFFER_SIZE> {
+    /// addresses of (head, tail, enqueuer_tail, dequeuer_head, buffer[0]) and the size of a slot
+    pub fn verif_addrs(&self) -> ([usize; 5], usize) {
+        let buffer0 = unsafe { (&*self.buffer.get()).as_ptr() as usize };
+        ([&*self.head as *const AtomicU32 as usize, &*self.tail as *const AtomicU32 as usize,
+          &*self.enqueuer_tail as *const AtomicU32 as usize, &*self.dequeuer_head as *const AtomicU32 as usize, buffer0],
+         std::mem::size_of::<SlotType>())
+    }
+    /// (head, tail, enqueuer_tail, dequeuer_head), read without scheduling points
+    pub fn verif_counters(&self) -> [u32; 4] {
+        [self.head.raw(), self.tail.raw(), self.enqueuer_tail.raw(), self.dequeuer_head.raw()]
+    }
+}
+
 // buffered elements are `ManuallyDrop<SlotType>`, so here is where we drop any unconsumed ones
 impl<SlotType:          Debug + Default,
      const BUFFER_SIZE: usize>
